@@ -320,6 +320,59 @@ pub fn c05() -> i32 {
                 scns.push(s);
             }
         }
+        // outages during the handshake: every length up to 3 s (there is no timeout while
+        // synchronizing), every start, each direction and both
+        let mut outs = Vec::new();
+        for spec in [false, true] {
+            for len in 1..=(if t { 30 } else { 16 }) {
+                for start in [0, 1, 3] {
+                    for dir in 0..3 {
+                        if !t && start == 1 && len % 2 == 0 {
+                            continue;
+                        }
+                        let mut s = base_scn("c05-handshake-outage", "1+1", 2, 0, false, Pred::RepeatLast, Program::Changing, 1);
+                        if spec {
+                            with_spec(&mut s, 8, 1);
+                        }
+                        s.round_us = 100_000;
+                        s.handshake_phase = true;
+                        let (a, b) = (s.peers[0].addr, s.peers[1].addr);
+                        let (x, y) = if spec { (a, 20) } else { (a, b) };
+                        if dir != 1 {
+                            s.outages.push(Outage { from: x, to: y, start, len, classes: CLASS_ALL });
+                        }
+                        if dir != 0 {
+                            s.outages.push(Outage { from: y, to: x, start, len, classes: CLASS_ALL });
+                        }
+                        s.name = format!("{} spectator-link={spec} start={start} len={len} dir={dir}", s.name);
+                        s.horizon = start + len + 1;
+                        s.probe = 30;
+                        s.checks = CK_C02;
+                        outs.push(s);
+                    }
+                }
+            }
+        }
+        // and every up/down pattern of the link over the first rounds (100 ms rounds)
+        for both in [false, true] {
+            let depth = if t { 14 } else { 10 };
+            let mut s = base_scn("c05-handshake-patterns", "1+1", 2, 0, false, Pred::RepeatLast, Program::Changing, 1);
+            s.round_us = 100_000;
+            s.handshake_phase = true;
+            let (a, b) = (s.peers[0].addr, s.peers[1].addr);
+            s.fault = packet_faults(0, depth, 0, Vec::new(), 0);
+            s.fault.link_rounds = if both { vec![vec![(a, b), (b, a)]] } else { vec![vec![(b, a)]] };
+            s.name = format!("{} both={both}", s.name);
+            s.horizon = depth;
+            s.probe = 30;
+            s.checks = CK_C02;
+            s.max_points = depth as u32;
+            outs.push(s);
+        }
+        let n_out = outs.len();
+        let cfg = ExploreCfg { k: Some(16), wall: Duration::from_secs(if t { 900 } else { 40 }), ..Default::default() };
+        let out = explore(&outs, &cfg, &judge);
+        rep.absorb("d2: outages of every length (100 ms rounds, up to 3 s) and every up/down pattern of the link during the handshake", out, &props, json!({"k": "all", "scenarios": n_out}));
         let k = if t { 3 } else { 2 };
         let n = scns.len();
         let cfg = ExploreCfg { k: Some(k), wall: Duration::from_secs(if t { 1800 } else { 40 }), ..Default::default() };
